@@ -275,12 +275,14 @@ func (a *AnySchema) checkAndConvert(data any) (any, error) {
 		return result, nil
 	case reflect.Map:
 		result := make(map[any]any, t.Len())
-		for _, k := range t.MapKeys() {
+		// MapRange, not MapKeys + MapIndex: a key that is not equal to itself (NaN) cannot be looked up again.
+		for iter := t.MapRange(); iter.Next(); {
+			k := iter.Key()
 			key, err := a.checkAndConvert(k.Interface())
 			if err != nil {
 				return nil, ConstraintErrorAddPathSegment(err, fmt.Sprintf("{%v}", k))
 			}
-			v := t.MapIndex(k)
+			v := iter.Value()
 			value, err := a.checkAndConvert(v.Interface())
 			if err != nil {
 				return nil, ConstraintErrorAddPathSegment(err, fmt.Sprintf("[%v]", key))
